@@ -231,7 +231,17 @@ static int realCall(int un, const char* c, U32* res) {
             if (ok) normaliseFilestat(un, a(1), &st);
         }
     }
-    else if (!strcmp(c, "path_filestat_get") && nA == 5) *res = CALL(un, path_filestat_get, (I, a(0), a(1), a(2), a(3), a(4)));
+    else if (!strcmp(c, "path_filestat_get") && nA == 5) {
+        *res = CALL(un, path_filestat_get, (I, a(0), a(1), a(2), a(3), a(4)));
+        if (*res == 0 && (U64)a(2) + a(3) <= MEMSIZE && a(3) > 0 && a(3) < PATH_MAX) {
+            WasiFileDescriptor d; struct stat st; char path[2 * PATH_MAX + 2];
+            if (wasiFileDescriptorGet(a(0), &d) && d.path) {
+                if (guest.data[a(2)] == '/') path[0] = 0; else { strcpy(path, d.path); strcat(path, "/"); }
+                strncat(path, (char*)guest.data + a(2), a(3));
+                if (stat(path, &st) == 0) normaliseFilestat(un, a(4), &st);
+            }
+        }
+    }
     else if (!strcmp(c, "path_rename") && nA == 6) *res = CALL(un, path_rename, (I, a(0), a(1), a(2), a(3), a(4), a(5)));
     else if (!strcmp(c, "path_unlink_file") && nA == 3) *res = CALL(un, path_unlink_file, (I, a(0), a(1), a(2)));
     else if (!strcmp(c, "path_remove_directory") && nA == 3) *res = CALL(un, path_remove_directory, (I, a(0), a(1), a(2)));
